@@ -177,6 +177,16 @@ func eofBoundedCond(info *types.Info, fs *ast.ForStmt) (string, bool) {
 	}
 	for _, cj := range conjuncts(fs.Cond) {
 		be, ok := ast.Unparen(cj).(*ast.BinaryExpr)
+		if ok && be.Op == token.LSS {
+			// a presence test: the cursor is inside the read buffer; at end of input nothing is buffered
+			if fv := selectorField(info, stripConv(info, be.X)); fv != nil && fv.Name() == "bsp" {
+				if c, isCall := stripConv(info, be.Y).(*ast.CallExpr); isCall && isBuiltinCall(info, c, "len") && len(c.Args) == 1 {
+					if bf := selectorField(info, c.Args[0]); bf != nil && bf.Name() == "bs" {
+						return "the condition requires a byte to be buffered at the cursor, and at end of input none is", true
+					}
+				}
+			}
+		}
 		if !ok || be.Op != token.EQL {
 			continue
 		}
